@@ -24,28 +24,21 @@ def main(argv):
     seeds = sorted(d for d in os.listdir(f"{ROOT}/seeded") if os.path.isdir(f"{ROOT}/seeded/{d}"))
     if sel:
         seeds = [s for s in seeds if any(s == x or s.startswith(x + "_") or s.split("_")[0] == x for x in sel)]
-    rc, out = sh(["git", "status", "--porcelain", "--untracked-files=no"], "/repo")
-    if out.strip():
-        print("refusing: /repo has local modifications:\n" + out)
-        return 2
-    results = {}
+    sys.path.insert(0, "/verif/tools")
+    from _variants import run_all
+    tasks = []
     for s in seeds:
         prop = s.split("_")[0]
-        rc, out = sh(["git", "apply", f"{ROOT}/seeded/{s}/patch.diff"], "/repo")
-        if rc != 0:
-            print(f"{s}: patch does not apply: {out[:200]}")
-            sh(["git", "checkout", "--", "."], "/repo")
+        targets = claimed if all_props else ([prop] if prop in claimed else [])
+        tasks.append(("seed", s, f"{ROOT}/seeded/{s}/patch.diff", targets))
+    results = {}
+    for s, res, err in run_all(tasks):
+        prop = s.split("_")[0]
+        if err:
+            print(f"{s}: {err}")
             continue
-        try:
-            targets = claimed if all_props else ([prop] if prop in claimed else [])
-            hits = {}
-            for t in targets:
-                rc, out = sh([f"{ROOT}/check", t, "quick"], ROOT)
-                viol = [l for l in out.splitlines() if l.startswith("VIOLATION") or l.startswith("  ")]
-                hits[t] = (rc, viol, out)
-            results[s] = hits
-        finally:
-            sh(["git", "checkout", "--", "."], "/repo")
+        hits = {t: (rc, [l for l in out.splitlines() if l.startswith("VIOLATION") or l.startswith("  ")], out) for t, (rc, out) in res.items()}
+        results[s] = hits
         own = hits.get(prop)
         retired = False
         try:
@@ -65,8 +58,6 @@ def main(argv):
                 if rc != 0:
                     for l in (v if rc == 1 else o.splitlines())[:6]:
                         print("      ", t, l[:260])
-    rc, out = sh(["git", "status", "--porcelain", "--untracked-files=no"], "/repo")
-    assert not out.strip(), "repo left dirty!"
     return 0
 
 
